@@ -355,6 +355,22 @@ def apply_fault(token, token2, fault, plan):
         if not isinstance(token, dict) or "recipients" not in token:
             return None
         return dict(copy.deepcopy(token), recipients=[])
+    if k == "rcpt-add-unknown-kid":
+        # one more recipient entry (first or last) whose kid names nobody the consumer knows: that recipient does not yield the key
+        if not isinstance(token, dict) or "recipients" not in token or len(token["recipients"]) < 2:
+            return None
+        t = copy.deepcopy(token)
+        src = copy.deepcopy(t["recipients"][fault["i"] % len(t["recipients"])])
+        hdr = dict(src.get("header") or {})
+        hdr["kid"] = "nobody-the-consumer-knows"
+        if fault.get("dir"):
+            hdr["alg"] = "dir"
+        src["header"] = hdr
+        if fault["where"] == "first":
+            t["recipients"].insert(0, src)
+        else:
+            t["recipients"].append(src)
+        return t
     return None
 
 
@@ -384,6 +400,7 @@ def enumerate_faults(token, plan, case):
             yield {"kind": "rcpt-corrupt-one", "i": i, "byte": case["sample_bits"][0]}
             yield {"kind": "rcpt-foreign-cek", "i": i}
             yield {"kind": "rcpt-drop", "i": i}
+            yield {"kind": "rcpt-add-unknown-kid", "i": i, "where": ("first", "last")[i % 2], "dir": bool(i // 2 % 2)}
     yield {"kind": "rcpt-all-bad"}
     yield {"kind": "rcpt-empty"}
     if not isinstance(token, str):
